@@ -1439,12 +1439,192 @@ func h5AddrKey(v ssa.Value, chain []ssa.CallInstruction) (root ssa.Value, sel st
 
 // ---- C20-course: the M/T suffix of the stringer without Sprintf -----------------------------------------
 
+// h5FlagFrame is one function walked for a value of the Magnetic flag: which of its parameters
+// denote the course whose flag is the case (the receiver of the stringer, and whatever a helper
+// is handed for it), which carry the flag itself, and the phis resolved on the path walked.
+type h5FlagFrame struct {
+	fn     *ssa.Function
+	course map[*ssa.Parameter]bool
+	flag   map[*ssa.Parameter]bool
+	phis   map[*ssa.Phi]ssa.Value
+}
+
+type h5FlagWalk struct {
+	c     *Ctx
+	mag   bool
+	steps int
+}
+
+func (fr *h5FlagFrame) resolve(v ssa.Value) ssa.Value {
+	for i := 0; i < 8; i++ {
+		ph, ok := v.(*ssa.Phi)
+		if !ok {
+			break
+		}
+		w, ok := fr.phis[ph]
+		if !ok {
+			break
+		}
+		v = w
+	}
+	return v
+}
+
+// isCourse: v denotes the course of the case - the parameter itself, the value loaded from the
+// local copy of it, or that local copy (every assignment of the variable stores the parameter and
+// its Magnetic field is never assigned separately).
+func (w *h5FlagWalk) isCourse(v ssa.Value, fr *h5FlagFrame) bool {
+	if ld, ok := v.(*ssa.UnOp); ok && ld.Op == token.MUL {
+		if _, isAl := ld.X.(*ssa.Alloc); isAl {
+			v = ld.X
+		}
+	}
+	switch x := v.(type) {
+	case *ssa.Parameter:
+		return fr.course[x]
+	case *ssa.Alloc:
+		if x.Referrers() == nil {
+			return false
+		}
+		n := 0
+		for _, ref := range *x.Referrers() {
+			switch y := ref.(type) {
+			case *ssa.Store:
+				p, isPar := y.Val.(*ssa.Parameter)
+				if y.Addr != ssa.Value(x) || !isPar || !fr.course[p] {
+					return false
+				}
+				n++
+			case *ssa.FieldAddr:
+				if fieldName(y.X.Type(), y.Field) != "Magnetic" || y.Referrers() == nil {
+					continue
+				}
+				for _, r2 := range *y.Referrers() {
+					if st, ok := r2.(*ssa.Store); ok && st.Addr == ssa.Value(y) {
+						return false // the flag of the copy is changed: no longer the case's flag
+					}
+				}
+			}
+		}
+		return n > 0
+	}
+	return false
+}
+
+// isFlag: v is the Magnetic flag of the course of the case, or a parameter that was handed it.
+func (w *h5FlagWalk) isFlag(v ssa.Value, fr *h5FlagFrame) bool {
+	switch x := v.(type) {
+	case *ssa.Parameter:
+		return fr.flag[x]
+	case *ssa.UnOp:
+		if x.Op == token.MUL {
+			if fa, ok := x.X.(*ssa.FieldAddr); ok && fieldName(fa.X.Type(), fa.Field) == "Magnetic" {
+				return w.isCourse(fa.X, fr)
+			}
+		}
+	case *ssa.Field:
+		return fieldName(x.X.Type(), x.Field) == "Magnetic" && w.isCourse(x.X, fr)
+	}
+	return false
+}
+
+// run follows the branch structure of the frame's function - which may only consult the flag - to
+// its return.
+func (w *h5FlagWalk) run(fr *h5FlagFrame) (ret *ssa.Return, stuck string) {
+	fn := fr.fn
+	if len(fn.Blocks) == 0 {
+		return nil, "no body"
+	}
+	cur, prev := fn.Blocks[0], (*ssa.BasicBlock)(nil)
+	for ; w.steps < 400; w.steps++ {
+		if prev != nil {
+			vals := map[*ssa.Phi]ssa.Value{}
+			for i, p := range cur.Preds {
+				if p != prev {
+					continue
+				}
+				for _, in := range cur.Instrs {
+					ph, ok := in.(*ssa.Phi)
+					if !ok {
+						break
+					}
+					vals[ph] = fr.resolve(ph.Edges[i])
+				}
+			}
+			for ph, v := range vals {
+				fr.phis[ph] = v
+			}
+		}
+		switch t := cur.Instrs[len(cur.Instrs)-1].(type) {
+		case *ssa.If:
+			v, truth := t.Cond, true
+			for {
+				u, ok := v.(*ssa.UnOp)
+				if !ok || u.Op != token.NOT {
+					break
+				}
+				v, truth = u.X, !truth
+			}
+			if !w.isFlag(v, fr) {
+				return nil, "a branch at " + w.c.pos(t.Cond.Pos()) + " depends on something other than the Magnetic flag of the course being formatted"
+			}
+			prev = cur
+			if w.mag == truth {
+				cur = cur.Succs[0]
+			} else {
+				cur = cur.Succs[1]
+			}
+		case *ssa.Jump:
+			prev, cur = cur, cur.Succs[0]
+		case *ssa.Return:
+			return t, ""
+		default:
+			return nil, "the function does not return on this path"
+		}
+	}
+	return nil, "the branch structure does not end (loop)"
+}
+
+// constOf: the constant v is in this case: a constant, a phi resolved on the path, or the result
+// of a one-result function of the same package - its branch structure followed for the same
+// case, with the parameters that receive the course (or its flag) bound to it.
+func (w *h5FlagWalk) constOf(v ssa.Value, fr *h5FlagFrame, depth int) *ssa.Const {
+	v = fr.resolve(v)
+	switch x := v.(type) {
+	case *ssa.Const:
+		return x
+	case *ssa.Call:
+		h := helperCallee(fr.fn, &x.Call)
+		if h == nil || depth >= g9MaxDepth || h.Signature.Results().Len() != 1 {
+			return nil
+		}
+		sub := &h5FlagFrame{fn: h, course: map[*ssa.Parameter]bool{}, flag: map[*ssa.Parameter]bool{}, phis: map[*ssa.Phi]ssa.Value{}}
+		for i, a := range x.Call.Args {
+			a = fr.resolve(a)
+			switch {
+			case w.isCourse(a, fr):
+				sub.course[h.Params[i]] = true
+			case w.isFlag(a, fr):
+				sub.flag[h.Params[i]] = true
+			}
+		}
+		ret, stuck := w.run(sub)
+		if stuck != "" || ret == nil || len(ret.Results) != 1 {
+			return nil
+		}
+		return w.constOf(ret.Results[0], sub, depth+1)
+	}
+	return nil
+}
+
 // h5StringerSuffix states the suffix clause of Course.String for the returns that do not hand back
 // a Sprintf result (those are judged by their format): for Magnetic = true and = false the branch
-// structure - which may only consult the Magnetic field - is followed to the return, and the
-// string returned there must be the three digit bytes, in order, followed by exactly the letter
-// M (magnetic) or T (true): a concatenation  string(digits) + letter,  or a byte slice literal of
-// the three digits and the letter. Anything else is undecided and reported.
+// structure - which may only consult the Magnetic field of the receiver - is followed to the
+// return, and the string returned there must be the three digit bytes, in order, followed by
+// exactly the letter M (magnetic) or T (true): a concatenation  string(digits) + letter,  or a
+// byte slice literal of the three digits and the letter. The letter may come from a helper of
+// the package that is handed the course (or its flag): the helper is followed for the same case.
+// Anything else is undecided and reported.
 func h5StringerSuffix(c *Ctx, r *Report, fn *ssa.Function) {
 	where := fnName(fn)
 	needed := false
@@ -1456,17 +1636,8 @@ func h5StringerSuffix(c *Ctx, r *Report, fn *ssa.Function) {
 		}
 		needed = true
 	}
-	if !needed || len(fn.Blocks) == 0 {
+	if !needed || len(fn.Blocks) == 0 || len(fn.Params) == 0 {
 		return
-	}
-	isMag := func(v ssa.Value) bool {
-		switch x := v.(type) {
-		case *ssa.UnOp:
-			return x.Op == token.MUL && strings.HasSuffix(pathOf(x), ".Magnetic")
-		case *ssa.Field:
-			return strings.HasSuffix(pathOf(x), ".Magnetic")
-		}
-		return false
 	}
 	for _, mag := range []bool{true, false} {
 		want := byte('T')
@@ -1474,74 +1645,9 @@ func h5StringerSuffix(c *Ctx, r *Report, fn *ssa.Function) {
 			want = 'M'
 		}
 		o := r.Add("C20-course", where, fmt.Sprintf("suffix letter when Magnetic is %v", mag), c.pos(fn.Pos()))
-		phis := map[*ssa.Phi]ssa.Value{}
-		resolve := func(v ssa.Value) ssa.Value {
-			for i := 0; i < 8; i++ {
-				ph, ok := v.(*ssa.Phi)
-				if !ok {
-					break
-				}
-				w, ok := phis[ph]
-				if !ok {
-					break
-				}
-				v = w
-			}
-			return v
-		}
-		cur, prev := fn.Blocks[0], (*ssa.BasicBlock)(nil)
-		var ret *ssa.Return
-		stuck := ""
-		for steps := 0; steps < 200 && ret == nil && stuck == ""; steps++ {
-			if prev != nil {
-				vals := map[*ssa.Phi]ssa.Value{}
-				for i, p := range cur.Preds {
-					if p != prev {
-						continue
-					}
-					for _, in := range cur.Instrs {
-						ph, ok := in.(*ssa.Phi)
-						if !ok {
-							break
-						}
-						vals[ph] = resolve(ph.Edges[i])
-					}
-				}
-				for ph, v := range vals {
-					phis[ph] = v
-				}
-			}
-			switch t := cur.Instrs[len(cur.Instrs)-1].(type) {
-			case *ssa.If:
-				v, truth := t.Cond, true
-				for {
-					u, ok := v.(*ssa.UnOp)
-					if !ok || u.Op != token.NOT {
-						break
-					}
-					v, truth = u.X, !truth
-				}
-				if !isMag(v) {
-					stuck = "a branch at " + c.pos(t.Cond.Pos()) + " depends on something other than the Magnetic flag"
-					break
-				}
-				prev = cur
-				if mag == truth {
-					cur = cur.Succs[0]
-				} else {
-					cur = cur.Succs[1]
-				}
-			case *ssa.Jump:
-				prev, cur = cur, cur.Succs[0]
-			case *ssa.Return:
-				ret = t
-			default:
-				stuck = "the function does not return on this path"
-			}
-		}
-		if stuck == "" && ret == nil {
-			stuck = "the branch structure does not end (loop)"
-		}
+		w := &h5FlagWalk{c: c, mag: mag}
+		fr := &h5FlagFrame{fn: fn, course: map[*ssa.Parameter]bool{fn.Params[0]: true}, flag: map[*ssa.Parameter]bool{}, phis: map[*ssa.Phi]ssa.Value{}}
+		ret, stuck := w.run(fr)
 		if stuck != "" {
 			o.Bad("cannot decide the suffix: %s", stuck)
 			continue
@@ -1551,37 +1657,55 @@ func h5StringerSuffix(c *Ctx, r *Report, fn *ssa.Function) {
 			o.Bad("the stringer does not return one string")
 			continue
 		}
-		v := resolve(resOf(ret, 0))
+		v := fr.resolve(resOf(ret, 0))
 		if call, ok := v.(*ssa.Call); ok && callName(&call.Call) == "fmt.Sprintf" {
 			o.OK("formatted by Sprintf on this path (judged by its format)")
 			continue
 		}
-		isDigit := func(x ssa.Value, i int) bool {
+		// the digits are those of the course being formatted
+		isDigits := func(addr ssa.Value) bool {
+			fa, ok := addr.(*ssa.FieldAddr)
+			return ok && fieldName(fa.X.Type(), fa.Field) == "Digits" && w.isCourse(fa.X, fr)
+		}
+		isDigit := func(x ssa.Value, i int64) bool {
 			ld, ok := x.(*ssa.UnOp)
-			return ok && ld.Op == token.MUL && strings.HasSuffix(pathOf(ld), fmt.Sprintf(".Digits[%d]", i))
+			if !ok || ld.Op != token.MUL {
+				return false
+			}
+			ia, ok := ld.X.(*ssa.IndexAddr)
+			if !ok || !isDigits(ia.X) {
+				return false
+			}
+			k, isC := constInt(ia.Index)
+			return isC && k == i
 		}
 		letter, how := int64(-1), ""
 		switch x := v.(type) {
 		case *ssa.BinOp:
 			// string(c.Digits[:]) + "M"
-			s, isC := constString(resolve(x.Y))
 			cv, isConv := x.X.(*ssa.Convert)
-			if x.Op == token.ADD && isC && len(s) == 1 && isConv {
-				if sl, ok := cv.X.(*ssa.Slice); ok && sl.Low == nil && sl.High == nil && strings.HasSuffix(derefPath(pathOf(sl.X)), ".Digits") {
-					letter, how = int64(s[0]), "string(digits) + letter"
+			if x.Op == token.ADD && isConv {
+				if sl, ok := cv.X.(*ssa.Slice); ok && sl.Low == nil && sl.High == nil && isDigits(sl.X) {
+					if k := w.constOf(x.Y, fr, 0); k != nil {
+						if s, isS := constString(k); isS && len(s) == 1 {
+							letter, how = int64(s[0]), "string(digits) + letter"
+						}
+					}
 				}
 			}
 		case *ssa.Convert:
 			// string([]byte{d0, d1, d2, letter})
 			if elems, ok := variadicArgs(x.X); ok && len(elems) == 4 && isDigit(elems[0], 0) && isDigit(elems[1], 1) && isDigit(elems[2], 2) {
-				if k, isC := constInt(resolve(elems[3])); isC {
-					letter, how = k, "the three digit bytes and the letter in one byte slice"
+				if k := w.constOf(elems[3], fr, 0); k != nil {
+					if n, isC := constInt(k); isC {
+						letter, how = n, "the three digit bytes and the letter in one byte slice"
+					}
 				}
 			}
 		}
 		switch {
 		case letter < 0:
-			o.Bad("cannot decide what the stringer returns on this path: neither the digits followed by one constant letter (concatenation or byte slice literal) nor a Sprintf result (unresolved)")
+			o.Bad("cannot decide what the stringer returns on this path: neither the digits followed by one constant letter (concatenation or byte slice literal, the letter possibly selected by a helper that is handed the course or its flag) nor a Sprintf result (unresolved)")
 		case byte(letter) != want:
 			o.Bad("with Magnetic=%v the course ends in %q, expected %q (digits followed by the letter)", mag, string(rune(letter)), string(rune(want)))
 		default:
@@ -1666,4 +1790,74 @@ func h5FoldVerbArgs(ci ssa.CallInstruction, fa ssa.Value, format string, chain [
 		i++
 	}
 	return out
+}
+
+// ---- C19-dispatch: a split made by a helper --------------------------------------------------------------
+
+// h5HelperResult: x is a result of a static call of a function of package pkg (the call itself for
+// a one-result function, an Extract otherwise) and judge holds for what the function returns at
+// that result position - on every return (all) or on some return.
+func h5HelperResult(x ssa.Value, pkg string, judge func(ret *ssa.Return, res ssa.Value) bool, all bool) bool {
+	var call *ssa.Call
+	idx := 0
+	switch y := x.(type) {
+	case *ssa.Extract:
+		call, _ = y.Tuple.(*ssa.Call)
+		idx = y.Index
+	case *ssa.Call:
+		if y.Call.Signature().Results().Len() == 1 {
+			call = y
+		}
+	}
+	if call == nil || call.Call.IsInvoke() {
+		return false
+	}
+	h := call.Call.StaticCallee()
+	if h == nil || len(h.Blocks) == 0 || pkgRel(h) != pkg {
+		return false
+	}
+	rets := returnsOf(h)
+	if len(rets) == 0 {
+		return false
+	}
+	for _, ret := range rets {
+		ok := idx < len(ret.Results) && judge(ret, resOf(ret, idx))
+		if ok && !all {
+			return true
+		}
+		if !ok && all {
+			return false
+		}
+	}
+	return all
+}
+
+// h5DependsDeep is dependsOn that also looks into the helpers of the package a value comes from:
+// a result of a static call satisfies pred when what the helper returns for it depends (in the
+// helper's frame, recursively, three levels) on a value satisfying pred - on every return (all:
+// "is derived from", e.g. a split at the last slash; a return taken under a test of such a value
+// counts too: `if i < 0 { return "", p }`) or on some return ("can pass through", e.g. a
+// normalising call). The arguments of the call are followed as dependsOn always does.
+func h5DependsDeep(v ssa.Value, pkg string, pred func(ssa.Value) bool, all bool, depth int) bool {
+	return dependsOn(v, func(x ssa.Value) bool {
+		if pred(x) {
+			return true
+		}
+		if depth >= 3 {
+			return false
+		}
+		return h5HelperResult(x, pkg, func(ret *ssa.Return, res ssa.Value) bool {
+			if h5DependsDeep(res, pkg, pred, all, depth+1) {
+				return true
+			}
+			if all {
+				for _, cd := range condsAt(ret.Block()) {
+					if dependsOn(cd.V, pred) {
+						return true
+					}
+				}
+			}
+			return false
+		}, all)
+	})
 }
